@@ -175,6 +175,8 @@ def scenario(c, inst, props):
     else:
         tf = c.real("tf")
         span, adt = spans.input_assumptions(c, inst, t0, tf, dt0)
+        if inst.get("dt_le_span"):
+            c.assume(adt <= span)
     dense = inst.get("dense", True)
     rhs = FreshRhs(c, shape, name="f", mode="uf")
     probe = FreshRhs(c, shape, name="f", mode="uf")
@@ -254,6 +256,32 @@ def scenario(c, inst, props):
                                      c.le(0, (T[i + 1] - call["t_prev"]) * (call["t_next"] - T[i + 1]), 64)]) for call in oracle.calls]
                              ) if oracle.calls else False)
         c.check("%s.every_recorded_step_was_examined_by_the_detector" % min(props & {"C08", "C09"}).lower(), c.all(cov), info=dict(rows=len(T), calls=len(oracle.calls)))
+    if "C04" in props:
+        # fixed-step method, no user intervention: also in a run with events every step that is not the last of its leg has the requested
+        # magnitude - the legs being: up to a terminal event (the landing sub-steps are shorter by construction), and the continuation
+        steps = [absval(c, T[i + 1] - T[i]) for i in range(len(T) - 1)]
+        c.check("c04.events.no_step_longer_than_requested", c.all([c.le(s_, adt, 1) for s_ in steps]))
+        if terminated and not infinite:
+            n0 = len(T)
+            rem = absval(c, tf - T[-1])
+            # the continuation goes to a NEW target far enough for the requested step to fit (integrate() halves an over-long step when a
+            # call starts); the working step the run left behind is the requested one
+            T2 = c.real("T2")
+            c.assume((T2 - T[-1]) * sgn > 0)
+            c.assume(absval(c, T2 - T[-1]) >= adt)
+            c.assume(absval(c, T2 - T[-1]) <= inst["N"] * adt)
+            c.check("c04.events.working_step_after_the_stop_is_the_requested_one", c.eq(absval(c, a.dt), adt, 1), info=dict(rows=n0))
+            if True:
+                st2, r2 = run(a.integrate, T2, callback=[spans.cap_callback(c, inst["N"] + 6, kind)])
+                if st2 == "ok":
+                    T2 = list(a.t)
+                    cont = [absval(c, T2[i + 1] - T2[i]) for i in range(n0 - 1, len(T2) - 1)]
+                    c.check("c04.events.continuation_steps_have_requested_size", c.all([c.eq(s_, adt, 1) for s_ in cont[:-1]]),
+                            info=dict(steps=len(cont)))
+                    c.check("c04.events.continuation_no_step_longer_than_requested", c.all([c.le(s_, adt, 1) for s_ in cont]))
+        else:
+            c.check("c04.events.non_final_steps_have_requested_size", c.all([c.eq(s_, adt, 1) for s_ in steps[:-1]]))
+        return
     if "C20" in props:
         # callbacks: once per outer step (the sub-steps taken to land on a terminal event share one final invocation), each invocation
         # sees rows recorded since the previous one
